@@ -29,6 +29,7 @@ import (
 	"unicode/utf8"
 
 	"github.com/mikefarah/yq/v4/pkg/yqlib"
+	toml "github.com/pelletier/go-toml/v2/unstable"
 )
 
 func c14Build(v interface{}) (*yqlib.CandidateNode, error) {
@@ -151,6 +152,49 @@ func c14XmlPrefs(r Req) yqlib.XmlPreferences {
 		p.SkipDirectives = r.Bool("xml_skip_dir")
 	}
 	return p
+}
+
+// c14_tomlexpr: {text_b64} -> {exprs: [...]}: the expression list of go-toml's unstable parser, produced without yqlib.
+// kv: {k:"kv", path:[b64...], v:value}; table / atable: {k, path}; value: {k:<Kind>, v:b64} | {k:"Array", c:[value...]} |
+// {k:"InlineTable", c:[kv...]}
+func c14TomlPath(it toml.Iterator) []string {
+	out := []string{}
+	for it.Next() {
+		out = append(out, b64(string(it.Node().Data)))
+	}
+	return out
+}
+
+func c14TomlValue(n *toml.Node) interface{} {
+	switch n.Kind {
+	case toml.Array:
+		cs := []interface{}{}
+		it := n.Children()
+		for it.Next() {
+			cs = append(cs, c14TomlValue(it.Node()))
+		}
+		return map[string]interface{}{"k": "Array", "c": cs}
+	case toml.InlineTable:
+		cs := []interface{}{}
+		it := n.Children()
+		for it.Next() {
+			cs = append(cs, c14TomlExpr(it.Node()))
+		}
+		return map[string]interface{}{"k": "InlineTable", "c": cs}
+	}
+	return map[string]interface{}{"k": n.Kind.String(), "v": b64(string(n.Data))}
+}
+
+func c14TomlExpr(n *toml.Node) interface{} {
+	switch n.Kind {
+	case toml.Table:
+		return map[string]interface{}{"k": "table", "path": c14TomlPath(n.Key())}
+	case toml.ArrayTable:
+		return map[string]interface{}{"k": "atable", "path": c14TomlPath(n.Key())}
+	case toml.KeyValue:
+		return map[string]interface{}{"k": "kv", "path": c14TomlPath(n.Key()), "v": c14TomlValue(n.Value())}
+	}
+	return map[string]interface{}{"k": "other:" + n.Kind.String()}
 }
 
 // c14_xmltok: {text_b64} -> {toks: [...]}: the token stream of encoding/xml's RawToken (Strict off, as yq configures
@@ -353,6 +397,15 @@ func init() {
 			}
 		}
 		return resp, nil
+	})
+	register("c14_tomlexpr", func(r Req) (Resp, error) {
+		p := toml.Parser{}
+		p.Reset([]byte(r.Text("text")))
+		exprs := []interface{}{}
+		for p.NextExpression() {
+			exprs = append(exprs, c14TomlExpr(p.Expression()))
+		}
+		return Resp{"exprs": exprs}, p.Error()
 	})
 	register("c14_xmltok", func(r Req) (Resp, error) {
 		toks, err := c14XmlTokens(r.Text("text"))
